@@ -15,11 +15,12 @@ FAMILY = {
     "value": ("MC_Value.tla", "MC_Value.cfg", (3, 1), [(2, 2), (4, 1)]),
     "stake": ("MC_Stake.tla", "MC_Stake.cfg", (3, 1), [(4, 1)]),
     "gov": ("MC_Gov.tla", "MC_Gov.cfg", (4, 1), [(5, 1)]),
+    "restart": ("MC_Restart.tla", "MC_Restart.cfg", (3, 1), [(4, 1), (3, 2)]),
 }
 PROP_FAMILY = {
     "C02": ["value", "stake"], "C03": ["value"], "C04": ["value"], "C05": ["value", "gov"], "C16": ["value", "gov"],
     "C10": ["stake"], "C11": ["stake"], "C12": ["stake"], "C13": ["stake"], "C14": ["stake", "gov"],
-    "C15": ["gov"], "C19": ["value"],
+    "C15": ["gov"], "C19": ["value"], "C07": ["restart"],
 }
 SPECS = ("BigNat.tla", "RigoProps.tla", "RigoMon.tla", "RigoCore.tla", "MC_Rigo.tla")
 
